@@ -1,6 +1,7 @@
 package engine
 
 import (
+	"crypto/sha256"
 	"encoding/json"
 	"fmt"
 	"runtime/debug"
@@ -79,22 +80,29 @@ func (b *BFS[S]) Run(r *Run) {
 	}
 	nops := b.NOps(r)
 	const shards = 64
+	// The visited set holds a 128-bit digest (truncated SHA-256) of every canonical key instead of the
+	// key itself: tens of millions of states fit in memory, and two different keys are merged with
+	// probability < N^2 / 2^129 (about 1e-24 for N = 2e7), far below any other source of error.
+	type digest [16]byte
 	type shard struct {
 		mu sync.Mutex
-		m  map[string]struct{}
+		m  map[digest]struct{}
 	}
 	seen := make([]*shard, shards)
 	for i := range seen {
-		seen[i] = &shard{m: map[string]struct{}{}}
+		seen[i] = &shard{m: map[digest]struct{}{}}
 	}
 	add := func(k string) bool {
-		sh := seen[Hash64([]byte(k))%shards]
+		full := sha256.Sum256([]byte(k))
+		var d digest
+		copy(d[:], full[:16])
+		sh := seen[int(d[0])%shards]
 		sh.mu.Lock()
 		defer sh.mu.Unlock()
-		if _, ok := sh.m[k]; ok {
+		if _, ok := sh.m[d]; ok {
 			return false
 		}
-		sh.m[k] = struct{}{}
+		sh.m[d] = struct{}{}
 		return true
 	}
 	type node struct {
@@ -112,8 +120,11 @@ func (b *BFS[S]) Run(r *Run) {
 	}
 	capped := false
 	depth := 0
+	var openStates int64 // states of the last completed level that were not expanded
 	for depth = 0; depth < maxDepth && len(frontier) > 0 && !capped; depth++ {
 		var next []node
+		var nextCount int64 // new states of this level (the nodes of the last level are counted, not kept)
+		lastLevel := depth+1 >= maxDepth
 		var nmu sync.Mutex
 		var wg sync.WaitGroup
 		idx := make(chan int, 1024)
@@ -122,6 +133,7 @@ func (b *BFS[S]) Run(r *Run) {
 			go func() {
 				defer wg.Done()
 				var local []node
+				var localCount int64
 				for i := range idx {
 					nd := frontier[i]
 					for op := 0; op < nops; op++ {
@@ -149,13 +161,17 @@ func (b *BFS[S]) Run(r *Run) {
 						k := fmt.Sprintf("%d#", nd.init) + b.Key(s)
 						if add(k) {
 							res.Nontrivial++
-							local = append(local, node{nd.init, h})
+							localCount++
+							if !lastLevel || len(local) < 4 {
+								local = append(local, node{nd.init, h})
+							}
 						}
 						st.merge(&res)
 					}
 				}
 				nmu.Lock()
 				next = append(next, local...)
+				nextCount += localCount
 				nmu.Unlock()
 			}()
 		}
@@ -169,7 +185,7 @@ func (b *BFS[S]) Run(r *Run) {
 		}
 		close(idx)
 		wg.Wait()
-		states += int64(len(next))
+		states += nextCount
 		if len(st.Samples) < 4 && len(next) > 0 {
 			nd := next[len(next)/2]
 			var rd any
@@ -179,6 +195,10 @@ func (b *BFS[S]) Run(r *Run) {
 			st.Samples = append(st.Samples, bfsCase{Init: nd.init, History: nd.hist, Readable: rd})
 		}
 		frontier = next
+		if lastLevel {
+			openStates = nextCount
+			frontier = nil
+		}
 		if maxStates > 0 && states >= int64(maxStates) && len(frontier) > 0 && depth+1 < maxDepth {
 			capped = true
 			st.Caps = append(st.Caps, fmt.Sprintf("state cap %d reached after completing depth %d", maxStates, depth+1))
@@ -191,10 +211,13 @@ func (b *BFS[S]) Run(r *Run) {
 	if capped {
 		st.Exhaustive = false
 	}
-	if len(frontier) == 0 {
+	if openStates == 0 {
+		openStates = int64(len(frontier))
+	}
+	if openStates == 0 {
 		st.Bound = fmt.Sprintf("closed: all reachable states found by depth %d", depth)
 	} else {
-		st.Bound = fmt.Sprintf("all histories up to depth %d (modulo canonical-state dedup); frontier %d open", depth, len(frontier))
+		st.Bound = fmt.Sprintf("all histories up to depth %d (modulo canonical-state dedup on 128-bit key digests); frontier %d open", depth, openStates)
 	}
 	r.closeScen(st)
 }
